@@ -122,6 +122,12 @@ func (m *c10Mon) OnState(w *world.World, hist []world.Op) []explore.Finding {
 				add(explore.Finding{Sig: fmt.Sprintf("C10|%s|%s|after-%s|Get-%s", startName, cls, last, resClass(r)), What: "Cursor.Get panicked", Detail: fmt.Sprintf("start %s(%v) steps %s: %v", st.kind, cfg.Key(st.k), seq, r.Panic)})
 				return false
 			}
+			// the cursor's own description of where it is (no call on a cursor panics, wherever it stands:
+			// on a tree without entries, below a node without keys)
+			if r := guardRes(func() error { _ = cur.String(); return nil }); r.Panic != nil {
+				add(explore.Finding{Sig: fmt.Sprintf("C10|%s|%s|after-%s|String-%s", startName, cls, last, resClass(r)), What: "Cursor.String panicked", Detail: fmt.Sprintf("start %s(%v) steps %s: %v", st.kind, cfg.Key(st.k), seq, r.Panic)})
+				return false
+			}
 			wantOK := pos >= 0 && pos < n
 			if ok != wantOK {
 				add(explore.Finding{Sig: fmt.Sprintf("C10|%s|%s|after-%s|entry-presence-wrong(want-%v)", startName, cls, last, wantOK), What: "cursor reports 'no entry' / an entry at the wrong time",
